@@ -126,6 +126,33 @@ pub fn rich_asts() -> Vec<File> {
     // default-rule clauses
     out.push(File { lets: vec![Let { name: "g".into(), val: Arg::Lit(i(1)) }], rules: vec![], default: vec![vec![bin(a(), BinOp::Eq, false, i(1)), un(vec![key("b")], UnOp::Exists, false)], vec![c5.clone()]] });
     out.push(File { lets: vec![], rules: vec![rule("r0", vec![vec![c2]])], default: vec![vec![c3]] });
+    // every kind of clause the grammar admits outside a rule, next to named and parameterised rules it can refer to
+    let ex = |k: &str| un(vec![key(k)], UnOp::Exists, false);
+    let r0s = rule("r0", vec![vec![ex("a")]]);
+    let pfs = Rule { name: "pf".into(), params: Some(vec!["p".into()]), when: None, lets: vec![], body: vec![vec![un(vec![Part::Var("p".into())], UnOp::Exists, false)]] };
+    let call = Clause::Call { not: false, name: "pf".into(), args: vec![Arg::Q(false, a())], msg: None };
+    let blk = Clause::Block { some: false, q: vec![key("a"), Part::All], not_empty: false, lets: vec![], body: vec![vec![ex("b")]] };
+    let wh = |cond: Cnf, body: Cnf| Clause::When { cond, lets: vec![], body };
+    let tbp = Clause::TypeBlock { tname: "AWS::X::Y".into(), cond: None, lets: vec![], body: vec![vec![ex("Properties")]] };
+    let tbw = Clause::TypeBlock { tname: "AWS::X::Y".into(), cond: Some(vec![vec![ex("Resources")]]), lets: vec![], body: vec![vec![ex("Properties")]] };
+    let dlines: Vec<Vec<Clause>> = vec![
+        vec![ex("a"), ex("b")],
+        vec![wh(vec![vec![ex("a")]], vec![vec![named("r0")], vec![ex("b")]])],
+        vec![wh(vec![vec![ex("a")]], vec![vec![named("r0"), ex("b")]])],
+        vec![wh(vec![vec![ex("a")]], vec![vec![named("r0").with_not(true)], vec![ex("b")]])],
+        vec![wh(vec![vec![ex("a")]], vec![vec![call.clone()]])],
+        vec![wh(vec![vec![ex("a")]], vec![vec![blk.clone()]])],
+        vec![wh(vec![vec![ex("a")]], vec![vec![wh(vec![vec![ex("b")]], vec![vec![ex("a")]])]])],
+        vec![wh(vec![vec![named("r0")]], vec![vec![ex("b")]])],
+        vec![blk.clone()],
+        vec![call.clone()],
+        vec![tbp.clone()],
+        vec![tbw.clone()],
+    ];
+    for (k, dl) in dlines.iter().enumerate() {
+        out.push(File { lets: vec![], rules: vec![r0s.clone(), pfs.clone()], default: vec![dl.clone()] });
+        out.push(File { lets: vec![], rules: vec![r0s.clone(), pfs.clone()], default: vec![dl.clone(), dlines[(k + 5) % dlines.len()].clone()] });
+    }
     out
 }
 
@@ -260,15 +287,24 @@ pub fn run(tier: &str) -> i32 {
             }
         }
         // clauses outside any rule == the body of one implicit default rule
-        if !f.default.is_empty() && f.rules.is_empty() {
+        if !f.default.is_empty() {
             let mut g2 = f.clone();
-            g2.rules = vec![rule("default", f.default.clone())];
+            g2.rules.push(rule("default", f.default.clone()));
             g2.default = vec![];
             let gt = print_file(&g2);
             for d in &djs {
                 let (a, b2) = (lib_run(&canon, d), lib_run(&gt, d));
                 acc.traces += 2;
-                if a.short() != b2.short() && !(matches!(a, Obs::Err(_)) && matches!(b2, Obs::Err(_))) {
+                // the implicit default rule is evaluated first, an explicit one where it is written: compare as sets
+                let norm = |o: &Obs| match o {
+                    Obs::Ok(fs, rs) => {
+                        let mut r = rs.clone();
+                        r.sort();
+                        format!("{:?} {:?}", fs, r)
+                    }
+                    other => other.short(),
+                };
+                if norm(&a) != norm(&b2) && !(matches!(a, Obs::Err(_)) && matches!(b2, Obs::Err(_))) {
                     acc.violate("default-rule", format!("bare clauses give {} but `rule default {{..}}` gives {} on {}", a.short(), b2.short(), d), json!({"kind":"lib2","rules":canon,"rules2":gt,"data":d,"expected":"same verdict","observed":format!("{} vs {}", a.short(), b2.short())}));
                 }
             }
